@@ -74,7 +74,7 @@ class C01(Prop):
                 if k > 1:
                     res.append(("agent:two-uploads-for-one-id", "%d uploads under ID %s" % (k, i), base))
             for i in r["id_tok"]:
-                if i not in up_ids:
+                if i not in up_ids and i not in (r.get("upload_faults") or {}):
                     res.append(("agent:no-upload", "no response was uploaded for %s" % i, dict(base, id=i)))
             for v in r["invocations"]:
                 ht = (v.get("header") or {}).get("X-Verif-Token") or [""]
